@@ -442,4 +442,19 @@ def dictRun {I K O : Type} [DecidableEq K] (key : I → K) (f : I → O) :
   | _, [] => []
   | c, i :: is => (dictStep key f c i).2 :: dictRun key f (dictStep key f c i).1 is
 
+/-- The same slot with the hit test the code *actually* uses made explicit: `same stored current` need not be
+equality (`np.allclose` on the limits, a comparison of rounded values, of hashes, of labels …).  On a hit the
+stored pair — key included — is left untouched, as in `update_histogram` / `FloodFillSubsetState.mask`.
+`slotStep` is the instance `same := (· = ·)`. -/
+def slotStepRel {I K O : Type} (same : K → K → Bool) (key : I → K) (f : I → O) (c : Option (K × O)) (i : I) :
+    Option (K × O) × O :=
+  match c with
+  | some (k, o) => if same k (key i) then (c, o) else (some (key i, f i), f i)
+  | none => (some (key i, f i), f i)
+
+def slotRunRel {I K O : Type} (same : K → K → Bool) (key : I → K) (f : I → O) :
+    Option (K × O) → List I → List O
+  | _, [] => []
+  | c, i :: is => (slotStepRel same key f c i).2 :: slotRunRel same key f (slotStepRel same key f c i).1 is
+
 end GlueVerif.C05Cache
